@@ -83,7 +83,8 @@ fn run_interner<T: Ord + Clone + std::fmt::Debug>(
                 }
             }
             IOp::Resolve(i) => {
-                let sym = big.get(&val(*i)).ok_or("harness: big interner lost a value")?;
+                // (the alphabet interner is the library too: every value of the alphabet was interned into it above)
+                let sym = big.get(&val(*i)).ok_or_else(|| format!("step {step}: a second interner holding the whole alphabet answers get({:?}) = None for a value that was interned", val(*i)))?;
                 let got = it.resolve(sym).cloned();
                 let want = list.get(*i as usize).cloned();
                 if got != want {
@@ -139,6 +140,98 @@ pub fn intern_body(c: &InternCase, obs: &mut Obs) -> Result<(), String> {
         obs.sample(json!({"interner_kind": c.kind % 3, "ops": c.ops}));
     }
     r
+}
+
+// ------------------------------------------------------------------------------- large tables
+
+/// tables of several hundred distinct values (the small alphabets above stop at 48): n distinct
+/// values in, then probes - every answer against the list model
+#[derive(Clone, Debug, Serialize, Deserialize)]
+pub struct LargeCase {
+    pub n: u16,
+    pub salt: u32,
+    pub probes: Vec<u16>,
+}
+
+pub fn large_body(c: &LargeCase, obs: &mut Obs) -> Result<(), String> {
+    let n = c.n.max(1) as u32;
+    // distinct values in an order that is not sorted (a multiplicative permutation of 0..n)
+    let val = |i: u32| -> u32 { (i.wrapping_mul(2_654_435_761).wrapping_add(c.salt)) ^ 0x5bd1_e995 };
+    let mut it: Interner<u32> = if c.salt % 2 == 0 { Interner::new() } else { Interner::default() };
+    let mut list: Vec<u32> = vec![];
+    for i in 0..n {
+        let v = val(i);
+        if list.contains(&v) {
+            continue;
+        }
+        let (ins, sym) = it.intern_or_get(v);
+        if !ins || sym.into_untracked().id as usize != list.len() {
+            return Err(format!("interner: inserting new value #{} returned inserted={ins}, index {}", list.len(), sym.into_untracked().id));
+        }
+        list.push(v);
+    }
+    let len = list.len() as u32;
+    for p in &c.probes {
+        let k = (*p as u32) % len;
+        let v = list[k as usize];
+        let (ins, sym) = it.intern_or_get(v);
+        if ins || sym.into_untracked().id != k {
+            return Err(format!("interner of {len} values: interning value #{k} again returned inserted={ins}, index {}", sym.into_untracked().id));
+        }
+        match it.get(&v) {
+            Some(s) if s.into_untracked().id == k => {
+                if it.resolve(s) != Some(&v) {
+                    return Err(format!("interner of {len} values: resolve({k}) does not return value #{k}"));
+                }
+            }
+            other => return Err(format!("interner of {len} values: get(value #{k}) = {:?}", other.map(|s| s.into_untracked().id))),
+        }
+        let absent = v ^ 0x8000_0001;
+        if !list.contains(&absent) && it.get(&absent).is_some() {
+            return Err(format!("interner of {len} values: get of a value that was never interned answers Some"));
+        }
+    }
+    if it.elements() != &list[..] {
+        return Err(format!("interner of {len} values: elements() differs from the values in insertion order"));
+    }
+    if it.elements().len() != list.len() {
+        return Err("interner: wrong number of elements".into());
+    }
+    // the same through the registry builder: n distinct types
+    let ty = |i: u32| MType { path: vec![format!("T{}", val(i) % 100_000), format!("U{i}")], params: vec![], def: MDef::Primitive(MPrim::U8), docs: vec![] };
+    let mut b = if c.salt % 2 == 0 { PortableRegistryBuilder::default() } else { PortableRegistryBuilder::new() };
+    for i in 0..len {
+        let announced = b.next_type_id();
+        let id = b.register_type(type_to_lib(&ty(i)));
+        if id != i || announced != i {
+            return Err(format!("builder: value #{i} was announced as {announced} and registered as {id}"));
+        }
+    }
+    for p in &c.probes {
+        let k = (*p as u32) % len;
+        let id = b.register_type(type_to_lib(&ty(k)));
+        if id != k {
+            return Err(format!("builder of {len} values: registering value #{k} again returned {id}"));
+        }
+        if b.get(k).map(type_from_lib) != Some(ty(k)) {
+            return Err(format!("builder of {len} values: get({k}) is not value #{k}"));
+        }
+        if b.get(len + k).is_some() {
+            return Err(format!("builder of {len} values: get({}) answers Some", len + k));
+        }
+    }
+    if b.next_type_id() != len {
+        return Err(format!("builder of {len} values: next_type_id() = {}", b.next_type_id()));
+    }
+    let r = b.finish();
+    if r.types.len() as u32 != len || r.types.iter().enumerate().any(|(i, t)| t.id != i as u32 || type_from_lib(&t.ty) != ty(i as u32)) {
+        return Err(format!("builder of {len} values: finish() does not list the values at their indices"));
+    }
+    obs.class(if len > 256 { "table_size/over_256" } else { "table_size/up_to_256" });
+    if !c.probes.is_empty() {
+        obs.nontrivial(&(c.n, c.salt, &c.probes));
+    }
+    Ok(())
 }
 
 // ------------------------------------------------------------------------------------ builder
@@ -331,6 +424,15 @@ pub fn c12_subs() -> Vec<Box<dyn Sub>> {
             body: Box::new(intern_body),
             guard_death: false,
             max_shrink: 4096,
+        }),
+        Box::new(Check {
+            name: "large_tables",
+            quick: 800,
+            thorough: 40_000,
+            strat: Box::new(|| (prop_oneof![1 => 1u16..257, 3 => 257u16..700], any::<u32>(), vec(any::<u16>(), 0..40)).prop_map(|(n, salt, probes)| LargeCase { n, salt, probes }).boxed()),
+            body: Box::new(large_body),
+            guard_death: false,
+            max_shrink: 512,
         }),
         Box::new(Check {
             name: "builder",
